@@ -190,15 +190,15 @@ def run(ctx, rep):
         tprm = A.params(tf.node)
         for c in calls:
             supplied = set()
-            for kw in c.keywords:
-                supplied.add(kw.arg)
-                ok = isinstance(kw.value, ast.Subscript) and K.self_attr(kw.value.value, "_config") is not None and \
-                    A.const_str(kw.value.slice) == kw.arg
-                rep.ob("R09.3", "%s: switch %s is fed from self._config[%r]" % (meth, kw.arg, kw.arg), ok,
+            for kwname, kwval in K.call_keywords(ctx, c, f.module):
+                supplied.add(kwname)
+                ok = isinstance(kwval, ast.Subscript) and K.self_attr(kwval.value, "_config") is not None and \
+                    A.const_str(kwval.slice) == kwname and kwname is not None
+                rep.ob("R09.3", "%s: switch %s is fed from self._config[%r]" % (meth, kwname, kwname), ok,
                        "same name on both sides" if ok else
-                       "`%s=%s`: the switch is wired to a different configuration key" % (kw.arg, A.src(kw.value)), ctx.loc(kw.value),
+                       "`%s=%s`: the switch is wired to a different configuration key" % (kwname, A.src(kwval)), ctx.loc(c),
                        kind="table")
-                rep.ob("R09.3", "DEFAULT_CONFIG has key %r" % kw.arg, kw.arg in defaults, "default %r" % (defaults.get(kw.arg),),
+                rep.ob("R09.3", "DEFAULT_CONFIG has key %r" % kwname, kwname in defaults, "default %r" % (defaults.get(kwname),),
                        "rpyc/core/protocol.py", kind="table", nontrivial=False)
             npos = len(c.args)
             missing = [p for p in tprm[npos:] if p not in supplied]
